@@ -1345,3 +1345,59 @@ Example C08_tr_cp_runs :
 Proof.
   cbv zeta. split; [vm_compute; repeat split; reflexivity|]. split; [exact (TrViOp.ed_lb _ _ _ _ _ (TrViOp.op_mem_ed 0 0))|exact (TrLbufCpUse.ext_cp_is 50 4)].
 Qed.
+
+(* ---- vi_shift (`<` / `>`) on the translated C text (coq/TrViShift.v; whitelist tools/c2clite.d/99zzzzz_viops.list).  vi_shift calls lbuf_edit once per
+   row INSIDE its loop, so lbuf_edit is an oracle with a SIMULATION hypothesis (TrViShift.edit_sim, the style of TrGlob.exec_oracle / TrCmp4.replace_sim):
+   called on a memory that represents the lines with the text t in the newest block, for the row i that is line k, it returns a memory that represents
+   edit_row lines t k (line k replaced by the lines of t; the buffer's blocks are existential on both sides), keeps the text block and the cursor cells;
+   vi_drawfix likewise keeps the picture (draw_sim); the string builder is the record TrViOp.oracles.
+   C08_tr_vi_shift: for every such oracle, every represented buffer and all rows r1, r2 (rows outside the buffer are skipped: `continue`), every dir: the
+   run returns 16 = VC_ALL and the memory represents shift_rows_b dir (r2 - r1 + 1) r1 lines -- each row r1..r2 in turn gets lbuf_edit(xb, shift_b dir line, i, i + 1),
+   shift_b: for dir > 0 a tab in front unless the line starts with the newline (an empty line is left alone), otherwise one leading blank or tab dropped --,
+   xrow = r1, xoff = lbuf_indents of the NEW buffer at r1, vi_drawfix was called.  Side conditions: r1, r2 + 1, dir, r2 - r1 + 1 inside int, every buffer on the
+   way has its sizes inside int (shift_small: a `>` makes a line one byte longer), fuel above the row count and the longest new line.
+   C08_tr_shift_text_model: the text handed to lbuf_edit for a row is the interpreter's -- ViDefs.shift_line on the characters of the line, flattened
+   (for a non-empty NUL-free line; the C text would put a tab in front of the EMPTY string, ViDefs.shift_line leaves [] alone: buffer lines end in a newline).
+   Not proved: that shift_rows_b is ViDefs.shift_rows (lbuf_edit's effect on the line list, edit_row = split at newlines, is not bridged to ViDefs.lbuf_edit);
+   that a total concrete oracle satisfies edit_sim (TrUndoEdit / TrCmp4Edit prove lbuf_edit in another memory picture) -- the run example uses an in-place edit. *)
+From NV Require TrViShift.
+Theorem C08_tr_vi_shift : forall (ext : nat -> list CLite.val -> CLite.mem -> CLite.res (CLite.val * CLite.mem)) (fuel : nat),
+  TrViOp.oracles ext -> forall lb : nat, TrViShift.edit_sim ext lb -> TrViShift.draw_sim ext lb ->
+  forall (D : nat) (m : CLite.mem) (bln : nat) (lbs : list nat) (lines : list bytes) (r1 r2 dir xr xo : Z),
+  TrViOp.ed_cur m lb bln lbs lines -> CLiteProps.cell_at m GenCFuncs.G_xrow xr -> CLiteProps.cell_at m GenCFuncs.G_xoff xo ->
+  CLiteTac.int_ok r1 -> CLiteTac.int_ok (r2 + 1) -> CLiteTac.int_ok dir -> CLiteTac.int_ok (r2 - r1) -> CLiteTac.int_ok (r2 - r1 + 1) ->
+  let n := Z.to_nat (r2 - r1 + 1) in let lines' := TrViShift.shift_rows_b dir n r1 lines in
+  TrViShift.shift_small dir n r1 lines -> (n < fuel)%nat -> (TrMot.maxlen lines' < fuel)%nat ->
+  exists (m9 : CLite.mem) (bln' : nat) (lbs' : list nat),
+    CLiteExt.callx ext GenCFuncs.cprog fuel (S (S (S (S D)))) GenCFuncs.F_vi_shift [CLite.VInt r1; CLite.VInt r2; CLite.VInt dir] m = CLite.Ok (CLite.VInt 16, m9) /\
+    TrViOp.ed_cur m9 lb bln' lbs' lines' /\ CLiteProps.cell_at m9 GenCFuncs.G_xrow r1 /\
+    CLiteProps.cell_at m9 GenCFuncs.G_xoff (MotDefs.lbuf_indents (map MotDefs.chop lines') r1).
+Proof. exact TrViShift.tr_vi_shift. Qed.
+Print Assumptions C08_tr_vi_shift.
+
+Theorem C08_tr_shift_text_model : forall (dir : Z) (s : bytes), nonul s -> s <> [] ->
+  ViDefs.flat (ViDefs.shift_line (0 <? dir)%Z (MotDefs.chop s)) = TrViShift.shift_b dir s.
+Proof. exact TrViShift.shift_b_model. Qed.
+Print Assumptions C08_tr_shift_text_model.
+
+(* the translated vi_shift RUNS (vm_compute, lbuf_edit as an edit in place, the other callees as TrViOp.ideal_ext): `>` on rows 0..1 of "ab\n", "cde\n", "f\n"
+   puts a tab in front of both, xrow = 0, xoff = 1, vi_drawfix(0, 1, 2, 0), 16; `<` on rows 0..2 of the result gives the original lines back, xoff = 0;
+   `>` on rows 2..4 touches row 2 only; the premises of C08_tr_vi_shift about the memory and the model hold on the first run. *)
+Example C08_tr_shift_runs :
+  (let run args m := CLiteExt.callx TrViShift.shift_ext GenCFuncs.cprog 50 8 GenCFuncs.F_vi_shift (map CLite.VInt args) m in
+   TrViShift.shift_show (run [0; 1; 1]%Z (TrViOp.op_mem 1 2))
+     = Some (CLite.VInt 16, Some [CLite.VInt 0], Some [CLite.VInt 1], TrViShift.shift_rows_b 1 2 0 TrViOp.op_lines, [map CLite.VInt [3; 0; 1; 2; 0]%Z]) /\
+   TrViShift.shift_rows_b 1 2 0 TrViOp.op_lines = [[9; 97; 98; 10]; [9; 99; 100; 101; 10]; [102; 10]]%N /\
+   (match run [0; 1; 1]%Z (TrViOp.op_mem 1 2) with
+    | CLite.Ok (_, m1) => option_map (fun x => fst x) (TrViShift.shift_show (run [0; 2; -1]%Z m1))
+                          = Some (CLite.VInt 16, Some [CLite.VInt 0], Some [CLite.VInt 0], TrViOp.op_lines)
+    | _ => False
+    end) /\
+   TrViShift.shift_rows_b (-1) 3 0 (TrViShift.shift_rows_b 1 2 0 TrViOp.op_lines) = TrViOp.op_lines /\
+   option_map (fun x => snd (fst x)) (TrViShift.shift_show (run [2; 4; 1]%Z (TrViOp.op_mem 0 0))) = Some (TrViShift.shift_rows_b 1 3 2 TrViOp.op_lines) /\
+   TrViShift.shift_rows_b 1 3 2 TrViOp.op_lines = [[97; 98; 10]; [99; 100; 101; 10]; [9; 102; 10]]%N) /\
+  (TrViOp.ed_cur (TrViOp.op_mem 1 2) (length GenCFuncs.cglobals) (length GenCFuncs.cglobals + 1)
+     [length GenCFuncs.cglobals + 2; length GenCFuncs.cglobals + 3; length GenCFuncs.cglobals + 4]%nat TrViOp.op_lines /\
+   CLiteProps.cell_at (TrViOp.op_mem 1 2) GenCFuncs.G_xrow 1 /\ CLiteProps.cell_at (TrViOp.op_mem 1 2) GenCFuncs.G_xoff 2 /\
+   TrViShift.shift_small 1 2 0 TrViOp.op_lines /\ (TrMot.maxlen (TrViShift.shift_rows_b 1 2 0 TrViOp.op_lines) < 50)%nat).
+Proof. exact (conj TrViShift.shift_run_examples TrViShift.shift_run_premises). Qed.
